@@ -26,7 +26,6 @@ import logging
 from collections.abc import Iterable
 from collections.abc import Iterator
 from collections.abc import Mapping
-from contextlib import contextmanager
 from copy import copy
 from copy import deepcopy
 from os import PathLike
@@ -335,8 +334,7 @@ class JSONGrammar(BaseGrammar):
                 write to a file named after the grammar and with .json extension.
         """
         path = Path(self.name).with_suffix(".json") if not path else Path(path)
-        with self.__sync_required_names():
-            path.write_text(self.__schema_builder.to_json(indent=2), encoding="utf-8")
+        path.write_text(self.to_json(indent=2), encoding="utf-8")
 
     def to_json(self, *args: Any, **kwargs: Any) -> str:
         """Return the JSON representation of the grammar schema.
@@ -348,29 +346,40 @@ class JSONGrammar(BaseGrammar):
         Returns:
             The JSON representation of the schema.
         """
-        with self.__sync_required_names():
-            return cast("str", self.__schema_builder.to_json(*args, **kwargs))
+        schema = self.__schema_builder.to_schema()
+        self.__set_required_names(schema)
+        return json.dumps(schema, *args, **kwargs)
 
-    @contextmanager
-    def __sync_required_names(self) -> Iterator[None]:
-        """Synchronize the required names while processing the schema builder."""
-        self.__schema_builder.required.update(self._required_names)
-        yield
-        self.__schema_builder.required.clear()
+    def __set_required_names(self, schema: Schema) -> None:
+        """Set the required names of a schema from the ones of the grammar.
+
+        The required names of the schema builder are not used
+        because its set of required names may not exist or may not be up to date.
+
+        Args:
+            schema: The schema.
+        """
+        if self._required_names:
+            schema["required"] = sorted(self._required_names)
+        else:
+            schema.pop("required", None)
 
     @property
     def schema(self) -> Schema:
         """The dictionary representation of the schema."""
         if not self.__schema:
-            with self.__sync_required_names():
-                self.__schema = self.__schema_builder.to_schema()
+            self.__schema = self.__schema_builder.to_schema()
+        # The required names can change without resetting the schema.
+        self.__set_required_names(self.__schema)
         return self.__schema
 
     def _create_validator(self) -> None:
         """Create the schema validator."""
-        self.schema.pop("id", None)
-        self.schema.pop("required", None)
-        self.__validator = compile_schema(self.schema)
+        # The schema of the grammar shall not be modified.
+        schema = self.schema.copy()
+        schema.pop("id", None)
+        schema.pop("required", None)
+        self.__validator = compile_schema(schema)
 
     def set_descriptions(self, descriptions: Mapping[str, str]) -> None:
         """Set the properties descriptions.
@@ -541,4 +550,6 @@ class JSONGrammar(BaseGrammar):
         self.__schema_builder.add_schema(
             state[f"_{self.__class__.__name__}__schema"], True
         )
+        # The required names are handled by the grammar, not by the schema builder.
+        self.__schema_builder.required.clear()
         self._defaults.update(cast("StrKeyMapping", state.pop("defaults")))
